@@ -566,7 +566,7 @@ PROPS = {
                 assumptions=["'truncated to the limit' is accepted in bytes or in characters", "fresh = encoded from entropy handed out by SimRand to the same task while that request was in its middlewares, or produced by that node's custom ID function",
                              "adaptive sampling and percentages strictly between 0 and 100 are not constrained by the property and only exercised"]),
     "C20": dict(engine="rtgen", pkg="./engines/rt", race=True, quick_runs=3000, thorough_runs=300000, quick_budget=240, thorough_budget=3000,
-                quick_designs=16, thorough_designs=40, quick_gen_runs=800, thorough_gen_runs=40000,
+                quick_designs=16, thorough_designs=40, quick_gen_runs=2400, thorough_gen_runs=40000,
                 level="exploration",
                 rule="runtime half: one run = one of (a) 2-16 (thorough: up to 64) client tasks x 1-4 (thorough 1-10) requests (ok, catch-all, invalid, declared error, plain error, "
                      "unknown route, truncated body; Accept json/xml/gob/absent) through SimNet against ONE mounted server assembled from goa's runtime helpers the way generated servers "
@@ -579,7 +579,7 @@ PROPS = {
                 assumptions=["the race detector only sees the program's own happens-before edges (gates are raw syscalls, no inlining so reports name the accessing function)",
                              "interleavings are explored at scheduling points only; what happens between two points is covered by the race detector, not by schedule search",
                              "sync.Pool inside chi/net/http/fmt keeps its per-P behaviour (no overlay): it can add happens-before edges and so hide, never invent, a race"]),
-    "C02": dict(engine="gen", race=False, quick_designs=24, thorough_designs=48, quick_runs=3000, thorough_runs=120000, quick_budget=120, thorough_budget=2400, thorough_batches=8,
+    "C02": dict(engine="gen", race=False, quick_designs=24, thorough_designs=48, quick_runs=9000, thorough_runs=120000, quick_budget=120, thorough_budget=2400, thorough_batches=8,
                 level="exploration",
                 rule="one batch = N seeded design specs (1-3 services x 1-4 methods; payload attributes of every primitive kind, arrays, maps, inline objects, named types, aliases, "
                      "required/default, every validation keyword, mapped to path/query/header/cookie/body) fed to goa through its public DSL, generated, compiled and linked into one binary; "
